@@ -266,6 +266,16 @@ Section Tree.
   Definition S_from_labels (labs : list label) (probes : list label) : res hobs :=
     if S_h_accepts labs then Ok (S_h_observe labs probes) else Err "ErrorInitIndex".
 
+  (* grow-only hierarchical index (specification): a label is accepted iff the table stays an index *)
+  Fixpoint S_hgo_run (labs : list label) (ops : list label) : list label * list bool :=
+    match ops with
+    | [] => (labs, [])
+    | x :: ops' =>
+        if S_h_accepts (labs ++ [x])
+        then let '(l, r) := S_hgo_run (labs ++ [x]) ops' in (l, true :: r)
+        else let '(l, r) := S_hgo_run labs ops' in (l, false :: r)
+    end.
+
   Definition M_h_observe (lv : level) (probes : list label) : hobs :=
     let labs := flatten lv in
     mk_hobs labs labs (rev labs) (lv_len lv) (iota (Z.to_nat (lv_len lv))) labs
@@ -286,5 +296,5 @@ Arguments ins_all {C}. Arguments depth_ok {C}. Arguments lv_offset {C}. Argument
 Arguments M_from_labels {C}. Arguments flatten {C}. Arguments leaf_loc {C}. Arguments M_leaf_loc_to_iloc {C}.
 Arguments M_h_contains {C}. Arguments lv_contains {C}. Arguments leqb {C}. Arguments lmemb {C}. Arguments lnodupb {C}. Arguments lindex_of {C}.
 Arguments share {C}. Arguments okb {C}. Arguments lastopt {A}. Arguments tree_ordered_from {C}. Arguments tree_ordered {C}. Arguments S_h_accepts {C}.
-Arguments S_h_lookup {C}. Arguments S_h_contains {C}. Arguments S_h_observe {C}. Arguments S_from_labels {C}.
+Arguments S_h_lookup {C}. Arguments S_h_contains {C}. Arguments S_h_observe {C}. Arguments S_from_labels {C}. Arguments S_hgo_run {C}.
 Arguments M_h_observe {C}. Arguments M_from_labels_obs {C}.
